@@ -315,4 +315,31 @@ theorem session_spec {σ : Type} (W : Writer σ) (w : σ) (bpb : Nat) (bil : Int
           rw [hsub, ← d5, List.drop_left' rfl]
           rfl
 
+theorem mem_allEvents {x : St × List Event} {l : List (St × List Event)} {e : Event}
+    (hx : x ∈ l) (he : e ∈ x.2) : e ∈ allEvents l := by
+  simp only [allEvents, List.mem_flatten, List.mem_map]
+  exact ⟨x.2, ⟨x, hx, rfl⟩, he⟩
+
+
+theorem mem_allEvents_iff {l : List (St × List Event)} {e : Event} :
+    e ∈ allEvents l ↔ ∃ x ∈ l, e ∈ x.2 := by
+  simp only [allEvents, List.mem_flatten, List.mem_map]
+  constructor
+  · rintro ⟨_, ⟨x, hx, rfl⟩, he⟩; exact ⟨x, hx, he⟩
+  · rintro ⟨x, hx, he⟩; exact ⟨x.2, ⟨x, hx, rfl⟩, he⟩
+
+
+theorem resumes_at {S : List Cell} : ∀ {t pre e post}, Resumes S t (pre ++ e :: post) →
+    e.offer <+: S.drop (t + (taken pre).length) := by
+  intro t pre
+  induction pre generalizing t with
+  | nil => intro e post h; simpa using h.1
+  | cons a r ih =>
+    intro e post h
+    obtain ⟨_, h2, h3⟩ := h
+    have := ih h3
+    have hl : a.taken.length = a.ret.toNat := by simp only [Event.taken, List.length_take]; omega
+    simpa [hl, Nat.add_assoc] using this
+
+
 end LA.CW
